@@ -1545,7 +1545,11 @@ class Generator:
     def read_template(self, path, seen=()):
         lines = []
         for ln in open(path, encoding="utf-8").read().split("\n"):
-            m = re.match(r"\s*//@include\s+(\S+)", ln)
+            m = re.match(r"\s*//@include\s+(\S+)(\s+nocanary)?\s*$", ln)
+            if m and m.group(2) and self.canary:
+                # `//@include file nocanary`: pure lemma text (no extracted code, no canary inside) is left out of the canary
+                # copy - it cannot influence whether a canary in extracted code fails, and verifying it again costs time
+                continue
             if m:
                 inc = os.path.join(os.path.dirname(self.template_path), m.group(1))
                 if inc in seen:
